@@ -127,7 +127,14 @@ func buildScFamily(r *prng.R, c scFamilyCfg) *family {
 	var ring *keys.Ring
 	resolver := "none"
 	if c.kinds[c.openerPos] == 'b' {
-		ring = stdRing(secs[c.openerPos])
+		// the opener's key among 0-2 other long-term keys of the same keyring, at any place: GetAllBoxSecretKeys
+		// returns several keys and each of them derives its shared key on its own (from 32 zero bytes)
+		ringSecs := [][]byte{secs[c.openerPos]}
+		for k := r.Intn(3); k > 0; k-- {
+			at := r.Intn(len(ringSecs) + 1)
+			ringSecs = append(ringSecs[:at], append([][]byte{r.Bytes(32)}, ringSecs[at:]...)...)
+		}
+		ring = stdRing(ringSecs...)
 	} else {
 		ring = stdRing()
 		resolver = "map:" + keys.Hex(idents[c.openerPos]) + "=" + keys.Hex(secs[c.openerPos])
